@@ -42,6 +42,11 @@
 (*                     taken for the result of a NEW fetch of the same      *)
 (*                     repository from the same (reconnected) peer p.        *)
 (*   "late-any-peer"   (original code, fixed) ... from any peer.             *)
+(*   "late-forwarded"  (original code, fixed) Wire::worker_result forwards   *)
+(*                     the result of a task of an earlier connection to the  *)
+(*                     service; together with "late-same-peer" (the service  *)
+(*                     matches results by repository and peer only, still    *)
+(*                     so) this was the finding C16 late-same-peer.           *)
 (*   "stale-link"      (original code, fixed) an OUTBOUND connection that   *)
 (*                     completes for an existing session leaves the          *)
 (*                     session's recorded link as it was.  After "dialled,   *)
@@ -71,7 +76,8 @@ VARIABLES
     sfetch,     \* [Peer -> SUBSET Repo]   per-session fetching set
     queue,      \* [Peer -> Seq(Repo)]     per-session fetch queue
     fetching,   \* [Repo -> 0 | [from, gid]]  Service::fetching (gid is ghost)
-    tasks,      \* [1..n -> [repo, peer, st]]  st \in {"running","done"}
+    tasks,      \* [1..n -> [repo, peer, st, stale]]  st \in {"running","done"}; stale: the connection
+                \* the task was started on is gone
     live,       \* ghost: tasks the service started and that were neither completed nor abandoned
     applied,    \* ghost: last step applied result of task g to the entry of task h: <<g, h>> or <<>>
     link,       \* [Peer -> "none" | "in" | "out"]  the link recorded in the session
@@ -127,7 +133,7 @@ Fetch(s, c, ss, r, p, ch) ==
     ELSE LET g == Len(s.tasks) + 1 IN
          [s EXCEPT !.fetching[r] = [from |-> p, gid |-> g],
                    !.sfetch[p] = @ \cup {r},
-                   !.tasks = Append(@, [repo |-> r, peer |-> p, st |-> "running"]),
+                   !.tasks = Append(@, [repo |-> r, peer |-> p, st |-> "running", stale |-> FALSE]),
                    !.live = @ \cup {g}]
 
 \* dequeue_fetches: once per session, in the given order
@@ -193,11 +199,24 @@ SvcDisconnected(p, l) ==
                                    !.live = {g \in @ : tasks[g].peer # p}]
               IN Set(Dequeue(s0, conn \ {p}, {q \in Peer : st'[q] # "none"}, order))
 
-\* the connection is lost: the wire reports it with its link
+\* the connection is lost: the wire reports it with its link; the tasks started on it now belong to
+\* an earlier connection
+Stale(ts, p) == [g \in DOMAIN ts |-> IF ts[g].peer = p THEN [ts[g] EXCEPT !.stale = TRUE] ELSE ts[g]]
 Disconnect(p) ==
     /\ wire[p] # "none"
     /\ wire' = [wire EXCEPT ![p] = "none"]
-    /\ SvcDisconnected(p, wire[p])
+    /\ IF st[p] = "none" \/ link[p] # wire[p]
+       THEN /\ tasks' = Stale(tasks, p)
+            /\ UNCHANGED <<st, sfetch, queue, fetching, live, link>>
+       ELSE /\ st' = [st EXCEPT ![p] = IF p \in Persistent THEN "disconnected" ELSE "none"]
+            /\ link' = [link EXCEPT ![p] = IF p \in Persistent THEN @ ELSE "none"]
+            /\ \E order \in Perms(conn \ {p}) :
+                 LET s0 == [St EXCEPT !.fetching = [r \in Repo |-> IF @[r].from = p THEN NoFetch ELSE @[r]],
+                                      !.sfetch[p] = {},
+                                      !.queue[p] = IF p \in Persistent THEN @ ELSE <<>>,
+                                      !.tasks = Stale(@, p),
+                                      !.live = {g \in @ : tasks[g].peer # p}]
+                 IN Set(Dequeue(s0, conn \ {p}, {q \in Peer : st'[q] # "none"}, order))
     /\ applied' = <<>>
     /\ Log(<<"disconnect", p>>)
     /\ UNCHANGED <<dial, routing, syncIn>>
@@ -255,7 +274,9 @@ TaskDone(g, ok) ==
     /\ LET r == tasks[g].repo
            p == tasks[g].peer
            t1 == [tasks EXCEPT ![g].st = "done"]
-           forwarded == wire[p] # "none"      \* Wire::worker_result: a peer with that node id is connected
+           \* Wire::worker_result: a peer with that node id is connected, and (since the fix) it is the
+           \* connection the task was started on
+           forwarded == wire[p] # "none" /\ (~tasks[g].stale \/ "late-forwarded" \in Dev)
            entry == fetching[r]
            matches == /\ entry # NoFetch
                       /\ \/ entry.gid = g
